@@ -46,6 +46,10 @@ fn alphabet() -> Vec<ExtObj> {
         ExtObj::Mpls(vec![member(1, false)]),
         ExtObj::Mpls(vec![member(2, true), member(3, false)]),
         ExtObj::Other(2, 1, vec![]),
+        // object lengths that are not a multiple of four (RFC 4884 counts octets): the next object
+        // starts right behind
+        ExtObj::Other(2, 2, vec![0xab]),
+        ExtObj::Other(3, 1, vec![1, 2, 3]),
         ExtObj::Other(2, 3, vec![0xde, 0xad, 0xbe, 0xef]),
         ExtObj::Other(3, 0, vec![1, 2, 3, 4, 5, 6, 7, 8]),
         ExtObj::Other(255, 255, vec![0xff, 0x00, 0xff, 0x00]),
@@ -408,7 +412,7 @@ pub fn run(args: &Args) -> i32 {
     rep.set("object_lists", json!(lists.len()));
     rep.set("units", json!(units.len()));
     rep.observe("distinct_rfc4884_length_attribute_values", json!(c.3.len()));
-    rep.set("rule", json!("{v4,v6} x {TimeExceeded, DestinationUnreachable} x parse mode {on,off} x protocol {icmp, udp/dublin, tcp} x layout {RFC 4884 compliant, legacy 128} x every quoted-prefix length giving a distinct length attribute (plus unaligned neighbours) x all object lists of length <= 3 (quick) / 4 (thorough) over 9 object shapes (MPLS depth 1-3 with boundary label/EXP/S/TTL, incl. a last entry without the S bit and an S bit before the end of the object; an empty stack - RFC 4950 requires at least one entry - belongs to the corruptions, classes 2,3,255, sizes 4/8/12); oracle: views return the original-datagram field and the extension structure byte-exactly, recv_probe reports exactly the encoded objects in order. Corruptions of a subset: every truncation point and all 256 values of the length attribute, of every object-length octet and of the version octet: no panic, iteration under ceiling, payload/extension inside the message and disjoint. Non-trivial = message carries >= 1 object, or is a corruption"));
+    rep.set("rule", json!("{v4,v6} x {TimeExceeded, DestinationUnreachable} x parse mode {on,off} x protocol {icmp, udp/dublin, tcp} x layout {RFC 4884 compliant, legacy 128} x every quoted-prefix length giving a distinct length attribute (plus unaligned neighbours) x all object lists of length <= 3 (quick) / 4 (thorough) over 11 object shapes (MPLS depth 1-3 with boundary label/EXP/S/TTL, incl. a last entry without the S bit and an S bit before the end of the object; an empty stack - RFC 4950 requires at least one entry - belongs to the corruptions, classes 2,3,255, sizes 4/5/7/8/12); oracle: views return the original-datagram field and the extension structure byte-exactly, recv_probe reports exactly the encoded objects in order. Corruptions of a subset: every truncation point and all 256 values of the length attribute, of every object-length octet and of the version octet: no panic, iteration under ceiling, payload/extension inside the message and disjoint. Non-trivial = message carries >= 1 object, or is a corruption"));
     rep.sample(json!({"unit": "udp/v6/dublin TE compliant", "quoted_octets": 136, "objects": "[Mpls(depth 2), Other(class 2)]"}));
     rep.assumptions = vec!["MPLS stacks of the conformant half have >= 1 member and S=1 exactly on the last (RFC 4950); padding is part of the original-datagram field (DESIGN.md 5.11)".into()];
     rep.finish()
